@@ -40,6 +40,8 @@ pub open spec fn sem_bin(op: OpCode, x: Value, y: Value) -> Option<Value> {
     match op {
         OpCode::Add | OpCode::Sub | OpCode::Mul | OpCode::Div | OpCode::Rem | OpCode::And | OpCode::Or | OpCode::Xor | OpCode::Eql | OpCode::Lt | OpCode::Gt | OpCode::Shl | OpCode::Shr =>
             match (x, y) { (Value::Int(a), Value::Int(b)) => match int_bin(op, a@, b@) { Some(n) => Some(vint(n)), None => None }, _ => None },
+        // bit-bounded exponentiation: x = base (top), y = exponent; fails when the exponent needs more than k + 1 bits
+        OpCode::Exp(k) => match (x, y) { (Value::Int(b), Value::Int(e)) => match exp_sem(b@, e@, k as nat) { Some(n) => Some(vint(n)), None => None }, _ => None },
         // vectors: x = top
         OpCode::VRef => match (as_vec(x), as_u16(y)) { (Some(v), Some(i)) => if i < v.len() { Some(v[i as int]) } else { None }, _ => None },
         OpCode::VAppend => match (as_vec(x), as_vec(y)) { (Some(a), Some(b)) => Some(vvec(a + b)), _ => None },
@@ -93,7 +95,7 @@ pub open spec fn sem_inner(op: OpCode, m: VM) -> Option<VM> {
     match op {
         OpCode::Noop => Some(m),
         OpCode::Add | OpCode::Sub | OpCode::Mul | OpCode::Div | OpCode::Rem | OpCode::And | OpCode::Or | OpCode::Xor | OpCode::Eql | OpCode::Lt | OpCode::Gt | OpCode::Shl | OpCode::Shr
-        | OpCode::VRef | OpCode::VAppend | OpCode::VPush | OpCode::VCons | OpCode::BRef | OpCode::BAppend | OpCode::BPush | OpCode::BCons =>
+        | OpCode::VRef | OpCode::VAppend | OpCode::VPush | OpCode::VCons | OpCode::BRef | OpCode::BAppend | OpCode::BPush | OpCode::BCons | OpCode::Exp(_) =>
             if n < 2 { None } else { match sem_bin(op, top(m.stack, 0), top(m.stack, 1)) { Some(v) => Some(VM { stack: m.stack.take(n - 2).push(v), ..m }), None => None } },
         OpCode::Not | OpCode::VLength | OpCode::BLength | OpCode::TypeQ | OpCode::ItoB | OpCode::BtoI | OpCode::Hash(_) =>
             if n < 1 { None } else { match sem_mon(op, top(m.stack, 0)) { Some(v) => Some(VM { stack: m.stack.take(n - 1).push(v), ..m }), None => None } },
@@ -122,7 +124,7 @@ pub open spec fn sem_inner(op: OpCode, m: VM) -> Option<VM> {
 }
 /// instructions whose arm of `step` is under contract in this build
 pub open spec fn covered(op: OpCode) -> bool {
-    match op { OpCode::Exp(_) => false, _ => true }
+    true
 }
 /// loop bookkeeping after every instruction: leave every loop whose end has been passed and which is exhausted or was jumped
 /// out of; if the innermost remaining loop has just finished an iteration and has iterations left, go back to its start
@@ -195,4 +197,55 @@ pub open spec fn env_heap(tx: Transaction, env: Option<CovenantEnv>) -> Map<u16,
             .insert(7u16, vbytes(e.parent_cdh.coin_data.additional_data@)).insert(8u16, vint(e.parent_cdh.height.0 as nat)).insert(10u16, val_of_header(e.last_header))
             .insert(9u16, vint(e.spender_index as nat)),
     }
+}
+
+// ---- Exp: square-and-multiply computes b^e mod 2^256 within a bit budget
+pub open spec fn exp_sem(b: nat, e: nat, k: nat) -> Option<nat> { if e < vstd::arithmetic::power2::pow2((k + 1) as nat) { Some((vstd::arithmetic::power::pow(b as int, e) % (m256() as int)) as nat) } else { None } }
+/// one round: (res, b, e) -> (res * b^(e mod 2), b^2, e / 2), all modulo m, keeps res * b^e modulo m
+pub proof fn lemma_exp_step(res: int, b: int, e: nat, m: int)
+    requires e > 0, m > 0, res >= 0, b >= 0
+    ensures ({ let res2 = if e % 2 == 1 { (res * b) % m } else { res }; let b2 = (b * b) % m; (res2 * vstd::arithmetic::power::pow(b2, e / 2)) % m == (res * vstd::arithmetic::power::pow(b, e)) % m })
+{
+    let h = e / 2; let b2 = (b * b) % m; let res2 = if e % 2 == 1 { (res * b) % m } else { res };
+    // vstd::arithmetic::power::pow(b, 2h) == vstd::arithmetic::power::pow(b*b, h)
+    vstd::arithmetic::power::lemma_pow_multiplies(b, 2, h);
+    assert(vstd::arithmetic::power::pow(b, 2) == b * b) by { vstd::arithmetic::power::lemma_pow1(b); reveal_with_fuel(vstd::arithmetic::power::pow, 3); }
+    assert(vstd::arithmetic::power::pow(b, (2 * h) as nat) == vstd::arithmetic::power::pow(b * b, h));
+    // vstd::arithmetic::power::pow(b2, h) % m == vstd::arithmetic::power::pow(b*b, h) % m
+    vstd::arithmetic::power::lemma_pow_mod_noop(b * b, h, m);
+    let p = vstd::arithmetic::power::pow(b * b, h); let p2 = vstd::arithmetic::power::pow(b2, h);
+    assert(p2 % m == p % m);
+    if e % 2 == 1 {
+        assert(e == 2 * h + 1);
+        vstd::arithmetic::power::lemma_pow_adds(b, (2 * h) as nat, 1); vstd::arithmetic::power::lemma_pow1(b);
+        assert(vstd::arithmetic::power::pow(b, e) == p * b);
+        // ((res*b)%m * p2) % m == (res*b*p) % m
+        vstd::arithmetic::div_mod::lemma_mul_mod_noop_general(res * b, p2, m);
+        vstd::arithmetic::div_mod::lemma_mul_mod_noop_general(res * b, p, m);
+        assert((res * b) * p == res * (p * b)) by (nonlinear_arith);
+    } else {
+        assert(e == 2 * h);
+        vstd::arithmetic::div_mod::lemma_mul_mod_noop_general(res, p2, m);
+        vstd::arithmetic::div_mod::lemma_mul_mod_noop_general(res, p, m);
+    }
+}
+/// the loop ended with e0 / 2^it == 0 after it <= k + 1 rounds: the exponent fits the bit budget
+pub proof fn lemma_exp_budget_ok(e0: nat, it: nat, kk: nat)
+    requires e0 / vstd::arithmetic::power2::pow2(it) == 0, it <= kk + 1
+    ensures e0 < vstd::arithmetic::power2::pow2((kk + 1) as nat)
+{
+    vstd::arithmetic::power2::lemma_pow2_pos(it);
+    let p = vstd::arithmetic::power2::pow2(it) as int;
+    vstd::arithmetic::div_mod::lemma_fundamental_div_mod(e0 as int, p); vstd::arithmetic::div_mod::lemma_mod_bound(e0 as int, p);
+    assert(e0 < p) by (nonlinear_arith) requires e0 as int == p * ((e0 as int) / p) + (e0 as int) % p, (e0 as int) / p == 0, (e0 as int) % p < p;
+    if it < kk + 1 { vstd::arithmetic::power2::lemma_pow2_strictly_increases(it, (kk + 1) as nat); }
+}
+/// the budget ran out (k + 1 rounds done) with e0 / 2^(k+1) > 0: the exponent does not fit
+pub proof fn lemma_exp_budget_fail(e0: nat, kk: nat)
+    requires e0 / vstd::arithmetic::power2::pow2((kk + 1) as nat) > 0
+    ensures e0 >= vstd::arithmetic::power2::pow2((kk + 1) as nat)
+{
+    vstd::arithmetic::power2::lemma_pow2_pos((kk + 1) as nat);
+    let p = vstd::arithmetic::power2::pow2((kk + 1) as nat) as int;
+    if (e0 as int) < p { vstd::arithmetic::div_mod::lemma_basic_div(e0 as int, p); }
 }
